@@ -173,20 +173,25 @@ Proof.
   induction reqs as [|q rest IH]; intros st i c0 Hk Hh; [exact I|].
   cbn [forallb] in Hh. apply andb_true_iff in Hh. destruct Hh as [Hq Hr].
   destruct st as [sec k]. cbn in Hk.
-  destruct q as [fm hj]. unfold has_host in Hq. cbn in Hq.
-  destruct k; try discriminate Hk; destruct fm; try discriminate Hq; destruct hj;
+  destruct q as [fm hj mu]. unfold has_host in Hq. cbn in Hq.
+  destruct k; try discriminate Hk; destruct fm; try discriminate Hq; destruct hj, mu;
     cbn; repeat split; try (eexists; split; reflexivity); try apply unseen_good;
     apply IH; auto.
 Qed.
 
+(* guard for cleartext tunnels: no modifier marks the session secure itself *)
+Definition no_msecure (q : inner) : bool := match i_mut q with MSecure => false | _ => true end.
+
 Lemma loop_plain_good : forall reqs st i c0 fx,
   secure st = false -> sconn st = c0 -> is_tls c0 = false ->
+  forallb no_msecure reqs = true ->
   inner_good false i false reqs (loop fx c0 false st i reqs).
 Proof.
-  induction reqs as [|q rest IH]; intros st i c0 fx Hs Hk Hc; [exact I|].
+  induction reqs as [|q rest IH]; intros st i c0 fx Hs Hk Hc Hm; [exact I|].
+  cbn [forallb] in Hm. apply andb_true_iff in Hm. destruct Hm as [Hmq Hmr].
   destruct st as [sec k]. cbn in Hs, Hk. subst sec k.
-  destruct q as [fm hj].
-  destruct c0; try discriminate Hc; destruct fx, fm, hj;
+  destruct q as [fm hj mu]. unfold no_msecure in Hmq. cbn in Hmq.
+  destruct c0; try discriminate Hc; destruct mu; try discriminate Hmq; destruct fx, fm, hj;
     cbn; repeat split; try (eexists; split; reflexivity); try apply unseen_good;
     try (apply IH; auto); auto;
     cbn; try (left; reflexivity); try (right; reflexivity);
@@ -200,17 +205,19 @@ Definition valid (l : listener) (t : tunnel) : bool :=
   | _, _ => true
   end.
 
-(* guard: every request names a host (Host header or absolute target) *)
+(* guards: every request names a host (Host header or absolute target); no
+   modifier calls MarkSecure itself (only matters inside a cleartext tunnel) *)
 Theorem fixed_good l t reqs :
-  forallb has_host reqs = true -> C05_good l t reqs (run true l t reqs).
+  forallb has_host reqs = true -> forallb no_msecure reqs = true ->
+  C05_good l t reqs (run true l t reqs).
 Proof.
-  intros Hh. unfold C05_good, run.
+  intros Hh Hm. unfold C05_good, run.
   destruct l, t; try exact I.
   - (* LPlain, TunTls *)
     cbn. destruct reqs as [|q rest]; [cbn; repeat split|].
     cbn [forallb] in Hh. apply andb_true_iff in Hh. destruct Hh as [Hq Hr].
-    destruct q as [fm hj]. unfold has_host in Hq. cbn in Hq.
-    destruct fm; try discriminate Hq; destruct hj; cbn; repeat split;
+    destruct q as [fm hj mu]. unfold has_host in Hq. cbn in Hq.
+    destruct fm; try discriminate Hq; destruct hj, mu; cbn; repeat split;
       try (eexists; split; reflexivity); try apply unseen_good;
       apply loop_tls_good; auto.
   - (* LPlain, TunPlain *)
@@ -218,8 +225,8 @@ Proof.
   - (* LShaped, TunTls *)
     cbn. destruct reqs as [|q rest]; [cbn; repeat split|].
     cbn [forallb] in Hh. apply andb_true_iff in Hh. destruct Hh as [Hq Hr].
-    destruct q as [fm hj]. unfold has_host in Hq. cbn in Hq.
-    destruct fm; try discriminate Hq; destruct hj; cbn; repeat split;
+    destruct q as [fm hj mu]. unfold has_host in Hq. cbn in Hq.
+    destruct fm; try discriminate Hq; destruct hj, mu; cbn; repeat split;
       try (eexists; split; reflexivity); try apply unseen_good;
       apply loop_tls_good; auto.
   - (* LShaped, TunPlain *)
@@ -241,12 +248,12 @@ Definition tls_fields (f : rfields) : Prop :=
 Lemma handle_one_tls k st q :
   is_tls k = true -> is_tls (sconn st) = true ->
   let '(st', f) := handle_one k true st q in
-  secure st' = true /\ sconn st' = sconn st /\ tls_fields f /\ f_host f = form_host (i_form q)
+  sconn st' = sconn st /\ tls_fields f /\ f_host f = form_host (i_form q)
   /\ (i_hijack q = true <-> f_hk f <> None).
 Proof.
   intros Hk Hs. destruct st as [sec sc]. cbn in Hs.
-  destruct q as [fm hj].
-  destruct k; try discriminate Hk; destruct sc; try discriminate Hs; destruct fm, hj; cbn;
+  destruct q as [fm hj mu].
+  destruct k; try discriminate Hk; destruct sc; try discriminate Hs; destruct fm, hj, mu; cbn;
     unfold tls_fields; cbn; repeat split; try congruence; try discriminate;
     try (intros ? E; inversion E; subst; reflexivity);
     try (intros ? E; inversion E; reflexivity).
@@ -268,7 +275,7 @@ Proof.
   cbn [loop] in Hin.
   pose proof (handle_one_tls (sconn st) st q Hk Hk) as H1.
   destruct (handle_one (sconn st) true st q) as [st' f1].
-  destruct H1 as [Hs' [Hk' [Hf [Hh Hj]]]].
+  destruct H1 as [Hk' [Hf [Hh Hj]]].
   destruct Hin as [E|Hin].
   - inversion E; subst. split; [exact Hf|]. split; [lia|]. exists q. rewrite Nat.sub_diag. auto.
   - destruct (stops q).
@@ -295,7 +302,7 @@ Lemma tunnel_fields nconn c0 q rest j f st3 f1 :
 Proof.
   intros Hn Hh Hin.
   pose proof (handle_one_tls nconn (mkSess false nconn) q Hn Hn) as H1.
-  rewrite Hh in H1. destruct H1 as [Hs' [Hk' [Hf [Hhost Hq]]]].
+  rewrite Hh in H1. destruct H1 as [Hk' [Hf [Hhost Hq]]].
   destruct Hin as [E|Hin].
   - inversion E; subst. split; [exact Hf|]. exists q. cbn. auto.
   - destruct (stops q); [exfalso; eapply unseen_no_seen; eauto|].
@@ -337,36 +344,39 @@ Definition plain_fields (f : rfields) : Prop :=
 
 Lemma loop_plain_fields : forall reqs st i c0 fx j f,
   secure st = false -> sconn st = c0 -> is_tls c0 = false ->
+  forallb no_msecure reqs = true ->
   In (Seen j f) (loop fx c0 false st i reqs) -> plain_fields f.
 Proof.
-  induction reqs as [|q rest IH]; intros st i c0 fx j f Hs Hk Hc Hin; [destruct Hin|].
+  induction reqs as [|q rest IH]; intros st i c0 fx j f Hs Hk Hc Hm Hin; [destruct Hin|].
+  cbn [forallb] in Hm. apply andb_true_iff in Hm. destruct Hm as [Hmq Hmr].
   destruct st as [sec k]. cbn in Hs, Hk. subst sec k.
   cbn [loop] in Hin.
   assert (Hck : (if fx then sconn (mkSess false c0) else c0) = c0) by (destruct fx; reflexivity).
   rewrite Hck in Hin.
-  destruct q as [fm hj].
-  assert (H1 : let '(st', f1) := handle_one c0 false (mkSess false c0) (mkInner fm hj) in
+  destruct q as [fm hj mu]. unfold no_msecure in Hmq. cbn in Hmq.
+  assert (H1 : let '(st', f1) := handle_one c0 false (mkSess false c0) (mkInner fm hj mu) in
                st' = mkSess false c0 /\ plain_fields f1).
-  { destruct c0; try discriminate Hc; destruct fm, hj; cbn; unfold plain_fields; cbn;
+  { destruct c0; try discriminate Hc; destruct mu; try discriminate Hmq; destruct fm, hj; cbn; unfold plain_fields; cbn;
       repeat split; try congruence; try discriminate;
       try (intros ? E; inversion E; subst; reflexivity);
       try (intros ? E; inversion E; reflexivity). }
-  destruct (handle_one c0 false (mkSess false c0) (mkInner fm hj)) as [st' f1].
+  destruct (handle_one c0 false (mkSess false c0) (mkInner fm hj mu)) as [st' f1].
   destruct H1 as [-> Hf].
   destruct Hin as [E|Hin]; [inversion E; subst; exact Hf|].
-  destruct (stops (mkInner fm hj)); [exfalso; eapply unseen_no_seen; eauto|].
-  exact (IH (mkSess false c0) (S i) c0 fx j f eq_refl eq_refl Hc Hin).
+  destruct (stops (mkInner fm hj mu)); [exfalso; eapply unseen_no_seen; eauto|].
+  exact (IH (mkSess false c0) (S i) c0 fx j f eq_refl eq_refl Hc Hmr Hin).
 Qed.
 
 Theorem plain_tunnel_requests : forall fx l reqs j f,
+  forallb no_msecure reqs = true ->
   1 <= j -> In (Seen j f) (run fx l TunPlain reqs) -> plain_fields f.
 Proof.
-  intros fx l reqs j f Hj Hin.
+  intros fx l reqs j f Hm Hj Hin.
   destruct l; [| |destruct Hin|destruct Hin]; unfold run in Hin; cbn [accepted handle_connect is_tls secure sconn] in Hin.
   - destruct Hin as [E|Hin]; [inversion E; subst; lia|].
-    exact (loop_plain_fields reqs (mkSess false Raw) 1 Raw fx j f eq_refl eq_refl eq_refl Hin).
+    exact (loop_plain_fields reqs (mkSess false Raw) 1 Raw fx j f eq_refl eq_refl eq_refl Hm Hin).
   - destruct Hin as [E|Hin]; [inversion E; subst; lia|].
-    exact (loop_plain_fields reqs (mkSess false ShapedRaw) 1 ShapedRaw fx j f eq_refl eq_refl eq_refl Hin).
+    exact (loop_plain_fields reqs (mkSess false ShapedRaw) 1 ShapedRaw fx j f eq_refl eq_refl eq_refl Hm Hin).
 Qed.
 
 (* ---------------- one session ---------------- *)
@@ -406,9 +416,9 @@ Qed.
 
 (* ---------------- witnesses ---------------- *)
 
-Definition w_nohost : list inner := [mkInner FNoHost false].
-Definition w_second : list inner := [mkInner FOrigin false; mkInner FOrigin false].
-Definition w_hijack : list inner := [mkInner FOrigin true].
+Definition w_nohost : list inner := [mkInner FNoHost false MNone].
+Definition w_second : list inner := [mkInner FOrigin false MNone; mkInner FOrigin false MNone].
+Definition w_hijack : list inner := [mkInner FOrigin true MNone].
 
 Lemma host_default_fails :
   c05_fail LPlain TunTls w_nohost (run true LPlain TunTls w_nohost) = Some CHost.
